@@ -62,7 +62,7 @@ theorem not_pascalInj_rejected (m : Machine) (h : ¬ m.PascalInj) :
       unfold Static.eventVariants
       rw [List.flatMap_append, genDynamic_eq]
       apply List.Sublist.trans _ (List.sublist_append_right _ _)
-      simp only [List.cons_append, List.nil_append, List.flatMap_cons, genEventEnum, List.map_map]
+      simp only [List.cons_append, List.nil_append, List.flatMap_cons, genEventEnum, List.map_map, Static.itemEventVariants]
       exact List.sublist_append_left _ _
     exact inj_of_nodup_map (fun ev : Event => toPascal ev.name) m.events (hsub.nodup hnd) ev hev ev' hev' hp
   simp [this]
